@@ -265,6 +265,48 @@ func checkC26(c *Ctx) (string, []string) {
 		}
 	}
 
+	// the restored state comes from the store, never from memory
+	{
+		g := B + "GetBlockAndState(p0, p1)"
+		st := "merklization.StateKeyValsToState(" + g + "#1)"
+		var calls []string
+		usesMemory := ""
+		seenF := map[*ssa.Function]bool{}
+		var scan func(f *ssa.Function, top bool)
+		scan = func(f *ssa.Function, top bool) {
+			if f == nil || seenF[f] || !inModule(f) {
+				return
+			}
+			seenF[f] = true
+			allInstrs(f, func(in ssa.Instruction) {
+				ci, ok := in.(ssa.CallInstruction)
+				if !ok {
+					return
+				}
+				sc := calleeFunc(ci)
+				if sc == nil {
+					return
+				}
+				if top && (sc == rws || sc.Name() == "RestoreStateFromSnapshot") {
+					var as []string
+					for _, a := range ci.Common().Args[2:] {
+						as = append(as, abbr(exprStr(a, shapeOpts)))
+					}
+					calls = append(calls, sc.Name()+"("+strings.Join(as, ", ")+")")
+				}
+				if sc.Signature.Recv() != nil && typeIs(sc.Signature.Recv().Type(), modPath+"/"+bcPkg, "PriorStates") && strings.HasPrefix(sc.Name(), "Get") {
+					usesMemory = funcKey(f) + " reads " + sc.Name()
+				}
+				if sc.Name() == "GetPriorStateUnmatchedKeyVals" || sc.Name() == "GetPriorStateUnmatchedKeyValsRef" || sc.Name() == "GetPostStateUnmatchedKeyVals" || sc.Name() == "GetPostStateUnmatchedKeyValsRef" {
+					usesMemory = funcKey(f) + " reads " + sc.Name()
+				}
+			})
+		}
+		scan(restore, true)
+		want := "restoreWithState(" + g + "#0, " + st + "#0, " + st + "#1)"
+		c.Check(len(calls) == 1 && calls[0] == want && usesMemory == "", "C26.restore-complete", B+"RestoreBlockAndState · source of the restored state", restore.Pos(), "the only restore is restoreWithState(stored block, state and raw entries parsed from the stored key-values); the in-memory prior state is not consulted", fmt.Sprintf("RestoreBlockAndState restores via %v (%s): a restore that reuses in-memory state keeps whatever a rejected STF run wrote through it", calls, usesMemory))
+	}
+
 	// ---- rule 4
 	c.Rule("C26.posterior-rebuilt", "a posterior component written by a rejected import cannot survive into the next accepted block: every component of the posterior state has a setter that is called on every path of RunSTF to its success return (interprocedural must-call; goroutines joined by WaitGroup.Wait count), and both commit functions end by copying posterior→prior, posterior raw pool→prior raw pool and installing a fresh posterior", 22)
 	m := &mustCallAnalysis{
